@@ -742,5 +742,184 @@ def r01_16(ctx):
     return r
 
 
+def _state_connected(term, meaning, *_):
+    """edge on which `*self.state.lock() == / != SctpState::Connected` says Connected"""
+    if term[0] == "call" and "PartialEq" in term[1] and isinstance(meaning, bool) and \
+            mir.has(term, lambda x: x[0] == "call" and x[1].endswith("::lock") and x[2] and mir.has_field(x[2][0], "state")) and \
+            mir.has(term, lambda x: x[0] == "agg" and x[2] == "Connected"):
+        return meaning is term[1].endswith("::eq")
+    return False
+
+
+def r01_17(ctx):
+    """'nothing inside that prefix is lost ... the prefix grows to the full submitted sequence': the receive point
+    (cumulative TSN) moves only after process_data_payload returned Ok - handle_data propagates its error with `?` in
+    front of the store. A TSN whose payload handler fails is therefore never acknowledged: the peer retransmits it for
+    ever, it fails each time, and every later chunk of every channel waits behind it in the reorder buffer. So the payload
+    handler must not be able to fail for a chunk that was received (a DCEP message it cannot act on - a repeated OPEN
+    after a duplicated COOKIE-ACK, an undecodable label - is dropped, the chunk is still acknowledged). Decided:
+    process_data_payload has no error return (callee summaries, depth 4)."""
+    r = RuleResult("R01.17", "K2", "a received DATA chunk is acknowledged whatever its payload handler makes of it")
+    fn = S + "process_data_payload"
+    r.scope.append(fn)
+    hd = ctx.body(S + "handle_data::{closure#0}")
+    calls = [bi for bi, t, p in hd.calls() if p and p.endswith("::process_data_payload")]
+    r.need("process_data_payload calls in handle_data", len(calls), 2)
+    if core.can_fail(ctx.facts, fn):
+        b = ctx.body(fn + "::{closure#0}")
+        errs = core.err_return_blocks(b)
+        r.violate(fn, "payload-handler:can-fail", b.where(errs[0]) if errs else b.where(0),
+                  "process_data_payload can return an error; handle_data returns it before storing cumulative_tsn_ack: that TSN is never "
+                  "acknowledged, is retransmitted for ever, and nothing behind it is delivered on any channel")
+    else:
+        r.ok({"process_data_payload": "no error return (DCEP handler errors are dropped with the message)"})
+    return r
+
+
+def r01_18(ctx):
+    """liveness again: the association's own task (run_loop -> handle_packet / handle_timeout) is the only one that
+    processes SACKs, i.e. the only one that frees send-buffer credit and lets a parked application send (which holds its
+    channel's send lock) go on. If that task itself waits for credit or for a channel's send lock, nobody is left to
+    release it: the association stops for good while heartbeats keep it 'alive'. It does send messages - the DCEP ACK from
+    handle_dcep, the DCEP OPEN from handle_cookie_ack / handle_cookie_echo - through send_data_raw. Decided: (a) in
+    send_data_raw both waits (flow_control_notify.notified(), send_lock.lock()) are on the `is_dcep == false` edge only;
+    (b) every send_data_raw reachable from the handlers is a DCEP send (the callers are send_dcep_open / send_dcep_ack,
+    which pass the DCEP PPID)."""
+    r = RuleResult("R01.18", "K1+call graph", "the association's task never waits for send-buffer credit or a channel's send lock")
+    b = ctx.body(S + "send_data_raw::{closure#0}")
+    r.scope.append(b.name)
+    waits = []
+    for bi, t, p in b.calls():
+        if not p or not t["a"]:
+            continue
+        a0 = b.term_operand(t["a"][0])
+        if p.endswith("Notify::notified") and mir.has_field(a0, "flow_control_notify"):
+            waits.append((bi, "flow_control_notify.notified()"))
+        if p.endswith("Mutex::<T>::lock") and mir.has_field(a0, "send_lock"):
+            waits.append((bi, "send_lock.lock()"))
+    r.need("waits in send_data_raw", len(waits), 2)
+
+    def not_dcep(term, meaning, *_):
+        t, neg = term, False
+        while t[0] == "un" and t[1] == "Not":
+            t, neg = t[2], not neg
+        if not isinstance(meaning, bool):
+            return False
+        if t[0] == "var" and t[1] == "is_dcep":
+            return (meaning != neg) is False
+        if t[0] == "bin" and t[1] in ("Eq", "Ne") and any(x[0] == "item" and x[1].endswith("DATA_CHANNEL_PPID_DCEP") for x in (t[2], t[3])) \
+                and any(mir.field_path(x) is not None and mir.field_path(x).endswith("ppid") or x == ("arg", "ppid") for x in (t[2], t[3])):
+            return (meaning != neg) is (t[1] == "Ne")
+        return False
+    g = core.lift_guards(b, core.guard_edges(b, not_dcep))
+    for bi, what in waits:
+        if g and core.k1(b, [bi], g)[bi] is None:
+            r.ok({"site": b.where(bi), "wait": what, "cut_by": "is_dcep == false"})
+        else:
+            r.violate(b.name, "wait:%s" % what.split("(")[0], b.where(bi),
+                      "send_data_raw waits at %s for DCEP messages too: the DCEP ACK / OPEN is sent by the association's own task, the only "
+                      "one that can free what it waits for - the association deadlocks" % what)
+    # (b) call graph from the handlers
+    roots = [S + "handle_packet::{closure#0}", S + "handle_timeout::{closure#0}"]
+    seen, work, raw_callers = set(), [x for x in roots if ctx.facts.has_body(x)], []
+    if len(work) < 2:
+        raise core.CheckerError("R01.18: handler roots not found")
+    while work:
+        n = work.pop()
+        if n in seen:
+            continue
+        seen.add(n)
+        nb = ctx.facts.body(n)
+        for bi, t, p in nb.calls():
+            if not p or not p.startswith("transports::sctp::"):
+                continue
+            if p.endswith("::send_data_raw") or p.endswith("SctpInner::send_data") or p.endswith("SctpInner::send_text"):
+                raw_callers.append((n, bi, p))
+                continue
+            for cand in (p + "::{closure#0}", p):
+                if ctx.facts.has_body(cand) and cand not in seen:
+                    work.append(cand)
+    r.need("bodies reachable from the SCTP handlers", len(seen), 15)
+    r.need("message sends reachable from the handlers", len(raw_callers), 2)
+    for n, bi, p in raw_callers:
+        nb = ctx.facts.body(n)
+        t = nb.blocks[bi]["t"]
+        args = [nb.term_operand(a) for a in t["a"]]
+        dcep = p.endswith("::send_data_raw") and len(args) >= 3 and \
+            mir.has(args[2], lambda x: x[0] == "item" and x[1].endswith("DATA_CHANNEL_PPID_DCEP"))
+        if dcep:
+            r.ok({"caller": n.split("::")[-2], "site": nb.where(bi), "ppid": "DATA_CHANNEL_PPID_DCEP"})
+        else:
+            r.violate(n, "handler-sends-data:%s" % p.split("::")[-1], nb.where(bi),
+                      "%s, reachable from the association's task, sends a non-DCEP message through %s: that send can wait for credit only "
+                      "this task can free" % (n.split("::")[-2], p.split("::")[-1]))
+    return r
+
+
+def r01_19(ctx):
+    """'including duplicated or late association-setup ... packets': the side that answers an INIT knows the peer's tag at
+    once, but RFC 4960 5.1 lets it send DATA only once the COOKIE ECHO has arrived. DATA sent right after the INIT takes
+    TSNs; if that INIT-ACK is lost, the retransmitted INIT is answered with an INIT-ACK naming the (advanced) next_tsn as
+    initial TSN, the peer puts its receive point behind the early chunks, takes their retransmissions for duplicates and
+    acknowledges them unseen - the messages are lost and the ordered stream waits for their SSNs for ever. Decided:
+    (a) in transmit() new data leaves the outbound queue only on the edge `awaiting_cookie_echo == false`;
+    (b) handle_init raises that flag on every path that sends the INIT-ACK;
+    (c) it is lowered only by handle_cookie_echo, behind the cookie validation."""
+    r = RuleResult("R01.19", "K1", "the side answering an INIT sends no DATA before the COOKIE ECHO")
+    b = ctx.body(S + "transmit::{closure#0}")
+    r.scope.append(b.name)
+    pops = [bi for bi, t, p in b.calls() if p and p.endswith("::pop_front") and t["a"] and mir.has_field(b.term_operand(t["a"][0]), "outbound_queue")]
+    r.need("dequeues from the outbound queue in transmit", len(pops), 1)
+
+    def not_awaiting(term, meaning, *_):
+        t, neg = term, False
+        while t[0] == "un" and t[1] == "Not":
+            t, neg = t[2], not neg
+        if core.is_atomic_load(t, "awaiting_cookie_echo") and isinstance(meaning, bool):
+            return (meaning != neg) is False
+        return False
+    g = core.lift_guards(b, core.guard_edges(b, not_awaiting))
+    for bi in pops:
+        if g and core.k1(b, [bi], g, fresh_per_iteration=True)[bi] is None:
+            r.ok({"site": b.where(bi), "cut_by": "awaiting_cookie_echo == false"})
+        else:
+            r.violate(b.name, "data:before-cookie-echo", b.where(bi),
+                      "new DATA is dequeued as soon as the peer's tag is known: the side answering an INIT sends before the COOKIE ECHO, and a "
+                      "repeated INIT-ACK (first one lost) then advertises an initial TSN beyond chunks already sent - they are acknowledged unseen")
+    hi = ctx.body(S + "handle_init::{closure#0}")
+    r.scope.append(hi.name)
+    sends = [bi for bi, t, p in hi.calls() if p and p.endswith("::send_chunk")]
+    raises = [bi for bi, t, args in core.atomic_sites(hi, "awaiting_cookie_echo", "store") if mir.int_value(args[1]) == 1 or args[1] == ("const", 1, "true") or mir.show(args[1]) == "true"]
+    r.need("INIT-ACK sends in handle_init", len(sends), 1)
+    for bi in sends:
+        if raises and core.must_pass(hi, bi, raises):
+            r.ok({"site": hi.where(bi), "after": "awaiting_cookie_echo = true"})
+        else:
+            r.violate(hi.name, "init-ack:flag-not-raised", hi.where(bi), "an INIT-ACK is sent on a path that does not raise awaiting_cookie_echo: DATA may follow it before the COOKIE ECHO")
+    lowered = 0
+    for nb in ctx.facts.bodies(prefix="transports::sctp::"):
+        if "::tests::" in nb.name:
+            continue
+        for bi, t, args in core.atomic_sites(nb, "awaiting_cookie_echo", "store"):
+            if bi in raises and nb.name == hi.name:
+                continue
+            lowered += 1
+            ok = nb.name == S + "handle_cookie_echo::{closure#0}"
+            if ok:
+                def valid(term, meaning, *_):
+                    tt, neg = term, False
+                    while tt[0] == "un" and tt[1] == "Not":
+                        tt, neg = tt[2], not neg
+                    return tt[0] == "call" and tt[1].endswith("::validate_cookie") and isinstance(meaning, bool) and (meaning != neg) is True
+                gv = core.guard_edges(nb, valid)
+                ok = bool(gv) and core.k1(nb, [bi], gv)[bi] is None
+            if ok:
+                r.ok({"site": nb.where(bi), "lowered": "in handle_cookie_echo behind validate_cookie"})
+            else:
+                r.violate(nb.name, "flag-lowered", nb.where(bi), "awaiting_cookie_echo is lowered outside handle_cookie_echo / without a valid cookie")
+    r.need("sites lowering awaiting_cookie_echo", lowered, 1)
+    return r
+
+
 def run(ctx):
-    return [r01_1(ctx), r01_2(ctx), r01_3(ctx), r01_4(ctx), r01_5(ctx), r01_6(ctx), r01_7(ctx), r01_8(ctx), r01_9(ctx), r01_10(ctx), r01_11(ctx), r01_12(ctx), r01_13(ctx), r01_14(ctx), r01_15(ctx), r01_16(ctx)]
+    return [r01_17(ctx), r01_18(ctx), r01_19(ctx), r01_1(ctx), r01_2(ctx), r01_3(ctx), r01_4(ctx), r01_5(ctx), r01_6(ctx), r01_7(ctx), r01_8(ctx), r01_9(ctx), r01_10(ctx), r01_11(ctx), r01_12(ctx), r01_13(ctx), r01_14(ctx), r01_15(ctx), r01_16(ctx)]
